@@ -54,6 +54,11 @@ Assignable(expected, actual) ==
   \/ IsEnum(expected) /\ IsEnum(actual) /\ EnumCompat(expected, actual)
   \/ IsPtr(expected) /\ IsPtr(actual) /\ Derives(actual, expected)
 
+\* type annotations as spelled in the source (a class name denotes a pointer to it)
+AnnT(n) == CASE n = "int" -> "int" [] n = "uint" -> "uint" [] n = "double" -> "dbl" [] n = "bool" -> "bool" [] n = "QString" -> "str"
+             [] n = "QStringList" -> "list:str" [] n = "TSource" -> "ptr:TSource" [] n = "TSub" -> "ptr:TSub"
+             [] n = "TSource.Mode" -> "enum:Mode" [] n = "TSource.Opts" -> "enum:Opts" [] n = "TSource.Opt" -> "enum:Opt" [] OTHER -> "ill"
+
 ArithOps == {"+", "-", "*", "/", "%"}
 BitOps   == {"&", "|", "^"}
 ShiftOps == {"<<", ">>"}
@@ -112,6 +117,8 @@ CheckS(x, locs) ==
   CASE x.k = "expr" -> R(TypeOf(x.e, locs) # "ill", locs, {})
     [] x.k \in {"let", "const"} -> LET t == Concrete(TypeOf(x.e, locs)) IN
                                    R(t \notin {"ill", "void"}, (x.n :> [ty |-> t, const |-> x.k = "const"]) @@ locs, {})
+    [] x.k = "lett" -> LET t == AnnT(x.ty) IN
+                       R(t # "ill" /\ (x.e.k = "none" \/ Assignable(t, TypeOf(x.e, locs))), (x.n :> [ty |-> t, const |-> FALSE]) @@ locs, {})
     [] x.k = "asg" -> R(x.n \in DOMAIN locs /\ ~locs[x.n].const /\ Assignable(locs[x.n].ty, TypeOf(x.e, locs)), locs, {})
     [] x.k = "asgsub" -> R(x.n \in DOMAIN locs /\ ~locs[x.n].const /\ locs[x.n].ty = "list:str" /\ TypeOf(x.i, locs) \in {"cint", "int", "uint"}
                            /\ Assignable("str", TypeOf(x.e, locs)), locs, {})
@@ -135,7 +142,7 @@ CheckS(x, locs) ==
              RECURSIVE Go(_, _)
              Go(i, acc) == IF i > Len(bodies) THEN acc ELSE Go(i + 1, CheckSeq(bodies[i], 1, acc))
              r == Go(1, R(TRUE, locs, {}))
-         IN R(v # "ill" /\ labs /\ r.ok, r.locs, r.rets)
+         IN R(v # "ill" /\ labs /\ r.ok, locs, r.rets)          \* the clauses are one scope that ends with the switch
     [] OTHER -> R(FALSE, locs, {})
 NoLocs == [x \in {} |-> 0]
 ParamLocs(params) == [n \in {params[i].n : i \in 1..Len(params)} |->
